@@ -17,9 +17,11 @@ from pyvolutionary import Task, ContinuousVariable, EarlyStopping
 from pyvolutionary.abstract import OptimizationAbstract
 from pyvolutionary.models import BaseOptimizationConfig
 
-ALPHA = [0.5, 0.45, 0.4495, 0.449, 0.3, 0.6, 0.0, 0.2]
+# letters: plateaus, decreases just below / above the min_delta values, an increase, exact zero, and 0.3000005 which lies
+# 5e-7 above the fitness_error value 0.3 (inside any "isclose" tolerance, far outside rounding noise)
+ALPHA = [0.5, 0.45, 0.4495, 0.3000005, 0.3, 0.6, 0.0, 0.2]
 FES = [None, 0.3, 0.0]
-ESS = [None, (0.001, 1), (0.001, 2), (0.001, 3), (0.06, 2), (0.0005, 1)]
+ESS = [None, (0.001, 1), (0.001, 2), (0.001, 3), (0.06, 2), (0.0, 1), (0.0, 2)]
 POP = 3
 
 
@@ -124,8 +126,9 @@ def work(item, opts):
                 r = min(0.99, max(0.0, r + step))
                 script.append(r)
             mc = rng.randint(1, L + 3)
-            fe = rng.choice([None, None, 0.1, script[rng.randrange(L)], 0.0])
-            es = rng.choice([None, (rng.choice([1e-4, 1e-3, 1e-2, 0.5]), rng.randint(1, 6))])
+            pick = script[rng.randrange(L)]
+            fe = rng.choice([None, None, 0.1, pick, 0.0, max(0.0, pick - 1e-7), max(0.0, pick - 1e-9), 1e-10])
+            es = rng.choice([None, (rng.choice([1e-4, 1e-3, 1e-2, 0.5, 0.0]), rng.randint(1, 6))])
             kind, detail = run_scripted(tuple(script), mc, fe, es)
             if kind in ("skip", "fragile"):
                 skipped += 1
